@@ -177,12 +177,12 @@ theorem seqs_distinct (oneways : List Bool) (evs : List Ev) :
   (inv_run _ (inv_init oneways) evs).keys
 
 /-- the tie: the classification expression was translated from the current source this run -/
-theorem tie_preds : Gen.predsTieOk = true := by decide
+theorem tie_preds : tieItem Gen.predsTie "Client.input:isServerMessage" = true := by decide
 
 /-! ### the model's atomic steps are the code's critical sections (regenerated facts) -/
 
 /-- the critical-section facts were extracted from the current source this run -/
-theorem tie_atomic : Gen.atomicTieOk = true := by decide
+theorem tie_atomic : tieItem Gen.atomicTie "atomic:client.Client.send" = true := by decide
 
 /-- registration is one critical section of `send`: the shutdown/closing test, the sequence
     number increment and the insertion into the pending table happen under one acquisition of the
